@@ -2,3 +2,6 @@ import Bubus.Model.Basic
 import Bubus.Model.Pure
 import Bubus.Model.Step
 import Bubus.Spec.Monitors
+import Bubus.Proofs.Frame
+import Bubus.Proofs.Dispatch
+import Bubus.Proofs.Easy
